@@ -227,13 +227,13 @@ Section Agreement.
     pose proof (spaces_after_search_fine defs2' ord' (spec e1) t0'_dd_free
                   (specialize_dd_free _ _ _ _ _ _ (distribute_dd_free _ _)) Ho') as Hf'.
     cbn zeta in Hf, Hf'. fold t0 T in Hf. fold t0' T' in Hf'.
-    assert (Hsp : spaces T' (spaces_fuel T' (spec e1)) (spec e1) [] false
-                  = spaces T (spaces_fuel T (spec e1)) (spec e1) [] false).
-    { rewrite (spaces_ext T T' S Hagree Hcl _ (spec e1) [] false He2).
+    assert (Hsp : spaces T' (spaces_fuel T' (spec e1)) (spec e1) [] false false
+                  = spaces T (spaces_fuel T (spec e1)) (spec e1) [] false false).
+    { rewrite (spaces_ext T T' S Hagree Hcl _ (spec e1) [] false false He2).
       apply spaces_fine_agree; [exact Hf'|].
-      rewrite <- (spaces_ext T T' S Hagree Hcl _ (spec e1) [] false He2). exact Hf. }
+      rewrite <- (spaces_ext T T' S Hagree Hcl _ (spec e1) [] false false He2). exact Hf. }
     rewrite Hsp.
-    destruct (spaces T _ (spec e1) [] false) as [[]| | |]; cbn [obind]; try discriminate.
+    destruct (spaces T _ (spec e1) [] false false) as [[]| | |]; cbn [obind]; try discriminate.
     intro H. inversion H; subst v. clear H. eexists. split; [reflexivity|].
     cbn [v_command v_expr]. split; [reflexivity|].
     rewrite (resolve_ext T' T (spec e1)); [reflexivity|].
